@@ -350,6 +350,12 @@ def residuals(rc):
 
 _PD_BOOL = '    if boolean:\n        return p_value >= kwargs["significance_level"]\n    else:\n        return chi, p_value, dof'
 
+
+@rule("C19.defuse", "anchored files: every parameter is read, no value is computed and dropped (generic def-use detectors, triaged hit list)", floor=2)
+def defuse(rc):
+    from . import shared as _sh
+    _sh.defuse_rule(rc, _sh.anchor_files("C19"))
+
 MUTANTS = [
     dict(kind="break", name="gsq-uses-pearson", file=CI, expect="C19.lambda",
          old='    return power_divergence(\n        X=X, Y=Y, Z=Z, data=data, boolean=boolean, lambda_="log-likelihood", **kwargs\n    )\n\n\ndef log_likelihood',
